@@ -192,7 +192,7 @@ def run(ctx):
         # corpus: one repository per case (eclass names clash otherwise)
         for i, (eapi, eb, ecls) in enumerate(CORPUS):
             repos.append((ecls, [(eapi, eb)]))
-        nrepos = ctx.n(5, 60)
+        nrepos = ctx.n(5, 40)
         per = ctx.n(22, 40)
         for _ in range(nrepos):
             names = ["e%d" % i for i in range(rng.randint(5, 9))]
